@@ -1,4 +1,4 @@
-#!/usr/bin/env python3
+#!/venv/bin/python
 """Regenerate /verif/MANIFEST.json from the table below (keeps it schema-valid)."""
 import json
 from pathlib import Path
@@ -9,7 +9,9 @@ PY = "/venv/bin/python"
 import importlib
 import sys
 sys.dont_write_bytecode = True
-sys.path.insert(0, str(Path(__file__).resolve().parent))
+import os
+for _p in (str(VERIF / "shims"), os.environ.get("DASHLIVE_REPO", "/repo"), str(Path(__file__).resolve().parent)):
+    sys.path.insert(0, _p)   # property modules may import the repo or third-party packages at top level
 
 
 def claimed():
